@@ -28,18 +28,18 @@ V_ENSURES(!__CPROVER_return_value || V_OLD(zck->error_state) == 0) /*@C03.comp_i
 
 /* assumed contract of a codec's end-of-chunk hook (zstd: proved against this in units/zstd.c with
  * the ZSTD_* calls by contract; nocomp: units/nocomp.c).  It may append decoded bytes to dc_data. */
-bool verif_end_dchunk(zckCtx *zck, zckComp *comp, const bool use_dict, const size_t fd_size)
-V_REQUIRES(__CPROVER_rw_ok(zck, sizeof(*zck)) && comp == &zck->comp)
-V_REQUIRES(DC_WF(comp) && DATA_WF(comp))
-V_ASSIGNS(zck->comp.data, zck->comp.data_size, zck->comp.dc_data, zck->comp.dc_data_size, zck->comp.dc_data_loc, zck->error_state)
-V_FREES_CALLEE(zck->comp.data, zck->comp.dc_data)
-/* uncompressed codec: nothing to do at the end of a chunk */
-V_ENSURES(zck->comp.type == ZCK_COMP_ZSTD || (zck->comp.data == V_OLD(zck->comp.data) && zck->comp.data_size == V_OLD(zck->comp.data_size) && zck->comp.dc_data == V_OLD(zck->comp.dc_data) && zck->comp.dc_data_size == V_OLD(zck->comp.dc_data_size) && zck->comp.dc_data_loc == V_OLD(zck->comp.dc_data_loc) && zck->error_state == V_OLD(zck->error_state) && __CPROVER_return_value == (zck->error_state == 0)))
-/* zstd: the buffered stored bytes are consumed; on success exactly fd_size decoded bytes are appended to the unread decoded bytes */
-V_ENSURES(zck->comp.type != ZCK_COMP_ZSTD || V_OLD(zck->error_state) > 0 || (zck->comp.data == NULL && zck->comp.data_size == 0))
-V_ENSURES(zck->comp.type != ZCK_COMP_ZSTD || zck->comp.dc_data == V_OLD(zck->comp.dc_data) || zck->comp.dc_data == NULL || __CPROVER_is_fresh(zck->comp.dc_data, zck->comp.dc_data_size))
-V_ENSURES(zck->comp.type != ZCK_COMP_ZSTD || !__CPROVER_return_value || (V_OLD(zck->error_state) == 0 && zck->comp.dc_data != NULL && zck->comp.dc_data != V_OLD(zck->comp.dc_data) && zck->comp.dc_data_loc == 0 && zck->comp.dc_data_size == V_OLD(zck->comp.dc_data_size) - V_OLD(zck->comp.dc_data_loc) + fd_size && zck->comp.dc_data_size >= fd_size)) /*@C02.end_dchunk.appends_exactly_the_declared_size*/
+#define CONTRACT_END_DCHUNK \
+V_REQUIRES(__CPROVER_rw_ok(zck, sizeof(*zck)) && comp == &zck->comp) \
+V_REQUIRES(DC_WF(comp) && DATA_WF(comp)) \
+V_ASSIGNS(zck->comp.data, zck->comp.data_size, zck->comp.dc_data, zck->comp.dc_data_size, zck->comp.dc_data_loc, zck->error_state) \
+V_FREES_HOOK(zck->comp.data, zck->comp.dc_data) \
+V_ENSURES(zck->comp.type == ZCK_COMP_ZSTD || (zck->comp.data == V_OLD(zck->comp.data) && zck->comp.data_size == V_OLD(zck->comp.data_size) && zck->comp.dc_data == V_OLD(zck->comp.dc_data) && zck->comp.dc_data_size == V_OLD(zck->comp.dc_data_size) && zck->comp.dc_data_loc == V_OLD(zck->comp.dc_data_loc) && zck->error_state == V_OLD(zck->error_state) && __CPROVER_return_value == (zck->error_state == 0))) \
+V_ENSURES(zck->comp.type != ZCK_COMP_ZSTD || V_OLD(zck->error_state) > 0 || (zck->comp.data == NULL && zck->comp.data_size == 0)) \
+V_ENSURES(zck->comp.type != ZCK_COMP_ZSTD || zck->comp.dc_data == V_OLD(zck->comp.dc_data) || zck->comp.dc_data == NULL || __CPROVER_is_fresh(zck->comp.dc_data, zck->comp.dc_data_size)) \
+V_ENSURES(zck->comp.type != ZCK_COMP_ZSTD || !__CPROVER_return_value || (V_OLD(zck->error_state) == 0 && zck->comp.dc_data != NULL && zck->comp.dc_data != V_OLD(zck->comp.dc_data) && zck->comp.dc_data_loc == 0 && zck->comp.dc_data_size == V_OLD(zck->comp.dc_data_size) - V_OLD(zck->comp.dc_data_loc) + fd_size && zck->comp.dc_data_size >= fd_size)) /*@C02.end_dchunk.appends_exactly_the_declared_size*/ \
 V_ENSURES(zck->comp.type != ZCK_COMP_ZSTD || __CPROVER_return_value || (zck->comp.dc_data == V_OLD(zck->comp.dc_data) && zck->comp.dc_data_size == V_OLD(zck->comp.dc_data_size) && zck->comp.dc_data_loc == V_OLD(zck->comp.dc_data_loc)))
+bool verif_end_dchunk(zckCtx *zck, zckComp *comp, const bool use_dict, const size_t fd_size)
+CONTRACT_END_DCHUNK
 ;
 
 
@@ -68,30 +68,47 @@ V_ENSURES(zck->comp.type != ZCK_COMP_ZSTD || __CPROVER_return_value || (zck->com
 #define RD_VALID_TARGETS(zck) g_n1 != NULL: g_n1->valid; g_n2 != NULL: g_n2->valid; g_n3 != NULL: g_n3->valid
 #define RD_HOOKS(z) ((z)->comp.decompress == verif_decompress && (z)->comp.end_dchunk == verif_end_dchunk && ((z)->comp.type == ZCK_COMP_NONE || (z)->comp.type == ZCK_COMP_ZSTD))
 #define RD_CUR(z) ((z)->comp.data_idx)
+#define RD_F(p, f) ((p) == g_n1 ? g_n1->f : (p) == g_n2 ? g_n2->f : g_n3->f)
+#define RD_CUR_F(z, f) RD_F(RD_CUR(z), f)
+#define RD_NEXT_OF(p) ((p) == g_n1 ? g_n2 : (p) == g_n2 ? g_n3 : (zckChunk *)NULL)
 #define RD_STATE_WF(z) (RD_IN_LIST(z, RD_CUR(z)) && DC_WF(&(z)->comp) && DATA_WF(&(z)->comp) && (z)->comp.data_size <= (z)->comp.data_loc && \
-    (RD_CUR(z) == NULL ? (z)->comp.data_loc == 0 : (z)->comp.data_loc <= RD_CUR(z)->comp_length) && \
-    CHUNK_HASH_WF(z) && HASH_OBJ_WF(&(z)->check_full_hash) && ((z)->check_full_hash.type == NULL || (z)->check_full_hash.type == &(z)->hash_type) && \
+    (RD_CUR(z) == NULL ? (z)->comp.data_loc == 0 : (z)->comp.data_loc <= RD_CUR_F(z, comp_length)) && \
+    ((z)->check_chunk_hash.type == NULL || (z)->check_chunk_hash.type == &(z)->chunk_hash_type) && ((z)->check_full_hash.type == NULL || (z)->check_full_hash.type == &(z)->hash_type) && \
     /* C02: bytes hashed into the running chunk hash == stored bytes of the chunk consumed so far */ \
     (g_hu_hash != &(z)->check_chunk_hash || RD_CUR(z) == NULL || ((z)->check_chunk_hash.ctx != NULL ? g_hu_total == (z)->comp.data_loc : (z)->comp.data_loc == 0)) && \
     /* C14/C09: the descriptor is positioned at the next unread stored byte of the current chunk */ \
     (RD_CUR(z) == NULL ? ((z)->comp.data_eof != 0 || g_fpos[G_IX((z)->fd)] == (g_off_t)(z)->data_offset) \
-                       : g_fpos[G_IX((z)->fd)] == (g_off_t)(z)->data_offset + (g_off_t)RD_CUR(z)->start + (g_off_t)(z)->comp.data_loc))
+                       : g_fpos[G_IX((z)->fd)] == (g_off_t)(z)->data_offset + (g_off_t)RD_CUR_F(z, start) + (g_off_t)(z)->comp.data_loc))
 #define RD_WF(z) (RD_LIST_WF(z) && RD_HOOKS(z) && RD_STATE_WF(z))
 
 
 /* codec hook `decompress` (stand-in called through the function pointer; the real hooks are proved
  * against this contract in units/codec.c): zstd buffers until the chunk ends (no-op), the
  * uncompressed codec moves the compressed-side buffer to the decoded side */
-bool verif_decompress(zckCtx *zck, zckComp *comp, const bool use_dict)
-V_REQUIRES(__CPROVER_rw_ok(zck, sizeof(*zck)) && comp == &zck->comp)
-V_REQUIRES(DC_WF(comp) && DATA_WF(comp))
-V_ASSIGNS(zck->comp.data, zck->comp.data_size, zck->comp.dc_data, zck->comp.dc_data_size, zck->comp.dc_data_loc)
-V_FREES_CALLEE(zck->comp.data, zck->comp.dc_data)
-V_ENSURES(zck->comp.type != ZCK_COMP_ZSTD || (zck->comp.data == V_OLD(zck->comp.data) && zck->comp.data_size == V_OLD(zck->comp.data_size) && zck->comp.dc_data == V_OLD(zck->comp.dc_data) && zck->comp.dc_data_size == V_OLD(zck->comp.dc_data_size) && zck->comp.dc_data_loc == V_OLD(zck->comp.dc_data_loc))) /*@C15.decompress.unit_codec_releases_nothing_before_chunk_end*/
-V_ENSURES(zck->comp.type != ZCK_COMP_ZSTD || __CPROVER_return_value == (zck->error_state == 0))
-V_ENSURES(zck->comp.type == ZCK_COMP_ZSTD || zck->comp.dc_data == NULL || __CPROVER_is_fresh(zck->comp.dc_data, zck->comp.dc_data_size))
-V_ENSURES(zck->comp.type == ZCK_COMP_ZSTD || !__CPROVER_return_value || (zck->comp.data == NULL && zck->comp.data_size == 0 && zck->comp.dc_data != NULL && zck->comp.dc_data_loc == 0 && zck->comp.dc_data_size == V_OLD(zck->comp.dc_data_size) - V_OLD(zck->comp.dc_data_loc) + V_OLD(zck->comp.data_size) && zck->comp.dc_data_size >= V_OLD(zck->comp.data_size))) /*@C01,C02.decompress.stream_codec_moves_exactly_the_buffered_bytes*/
+#define CONTRACT_DECOMPRESS \
+V_REQUIRES(__CPROVER_rw_ok(zck, sizeof(*zck)) && comp == &zck->comp) \
+V_REQUIRES(DC_WF(comp) && DATA_WF(comp) && comp->data != NULL && comp->data_size > 0) \
+V_ASSIGNS(zck->comp.data, zck->comp.data_size, zck->comp.dc_data, zck->comp.dc_data_size, zck->comp.dc_data_loc, zck->error_state) \
+V_FREES_HOOK(zck->comp.data, zck->comp.dc_data) \
+V_ENSURES(zck->comp.type != ZCK_COMP_ZSTD || (zck->comp.data == V_OLD(zck->comp.data) && zck->comp.data_size == V_OLD(zck->comp.data_size) && zck->comp.dc_data == V_OLD(zck->comp.dc_data) && zck->comp.dc_data_size == V_OLD(zck->comp.dc_data_size) && zck->comp.dc_data_loc == V_OLD(zck->comp.dc_data_loc))) \
+V_ENSURES(zck->comp.type != ZCK_COMP_ZSTD || __CPROVER_return_value == (zck->error_state == 0)) \
+V_ENSURES(zck->comp.type == ZCK_COMP_ZSTD || zck->comp.dc_data == V_OLD(zck->comp.dc_data) || zck->comp.dc_data == NULL || __CPROVER_is_fresh(zck->comp.dc_data, zck->comp.dc_data_size)) \
+V_ENSURES(zck->comp.type == ZCK_COMP_ZSTD || !__CPROVER_return_value || (zck->comp.data == NULL && zck->comp.data_size == 0 && zck->comp.dc_data != NULL && zck->comp.dc_data_loc == 0 && zck->comp.dc_data_size == V_OLD(zck->comp.dc_data_size) - V_OLD(zck->comp.dc_data_loc) + V_OLD(zck->comp.data_size) && zck->comp.dc_data_size >= V_OLD(zck->comp.data_size))) \
 V_ENSURES(zck->comp.type == ZCK_COMP_ZSTD || __CPROVER_return_value || zck->error_state > 0 || zck->comp.dc_data_loc <= zck->comp.dc_data_size)
+bool verif_decompress(zckCtx *zck, zckComp *comp, const bool use_dict)
+CONTRACT_DECOMPRESS
+;
+
+/* comp_add_to_dc: drops the already-read part of the decoded buffer and appends src (content
+ * preservation is asserted by its harness with ghost indices) */
+bool comp_add_to_dc(zckCtx *zck, zckComp *comp, const char *src, size_t src_size)
+V_REQUIRES(__CPROVER_rw_ok(zck, sizeof(*zck)) && comp == &zck->comp && DC_WF(comp))
+V_REQUIRES(src == NULL || src_size == 0 || __CPROVER_r_ok(src, src_size))
+V_ASSIGNS(zck->comp.dc_data, zck->comp.dc_data_size, zck->comp.dc_data_loc, zck->error_state)
+V_FREES(zck->comp.dc_data)
+V_ENSURES(__CPROVER_return_value == (V_OLD(zck->error_state) == 0 && src != NULL)) /*@C03.comp_add_to_dc.succeeds_iff_usable*/
+V_ENSURES(!__CPROVER_return_value || (__CPROVER_is_fresh(zck->comp.dc_data, zck->comp.dc_data_size) && zck->comp.dc_data_loc == 0 && zck->comp.dc_data_size == V_OLD(zck->comp.dc_data_size) - V_OLD(zck->comp.dc_data_loc) + src_size && zck->comp.dc_data_size >= src_size)) /*@C02,C03.comp_add_to_dc.unread_plus_new*/
+V_ENSURES(__CPROVER_return_value || (zck->comp.dc_data == V_OLD(zck->comp.dc_data) && zck->comp.dc_data_size == V_OLD(zck->comp.dc_data_size) && zck->comp.dc_data_loc == V_OLD(zck->comp.dc_data_loc))) /*@C03.comp_add_to_dc.untouched_on_failure*/
 ;
 
 static size_t comp_read_from_dc(zckCtx *zck, zckComp *comp, char *dst, size_t dst_size)
@@ -141,19 +158,20 @@ V_ENSURES(__CPROVER_return_value < 0 || g_hu_hash != &zck->check_full_hash || g_
  * Watched hash: &zck->check_chunk_hash. */
 static ssize_t comp_end_dchunk(zckCtx *zck, bool use_dict, size_t fd_size)
 V_REQUIRES(__CPROVER_rw_ok(zck, sizeof(*zck)))
-V_REQUIRES(zck->comp.data_idx != NULL && CHUNK_WF(zck->comp.data_idx) && zck->comp.data_idx->zck == zck)
-V_REQUIRES(zck->comp.data_idx->next == NULL || __CPROVER_rw_ok(zck->comp.data_idx->next, sizeof(zckChunk)))
-V_REQUIRES(CHUNK_HASH_WF(zck))
+V_REQUIRES(RD_LIST_WF(zck) && zck->comp.data_idx != NULL && RD_IN_LIST(zck, zck->comp.data_idx))
+V_REQUIRES(zck->check_chunk_hash.type == NULL || zck->check_chunk_hash.type == &zck->chunk_hash_type)
 /* C02/C09: a chunk's end is processed only when exactly its stored size has been consumed and hashed */
-V_REQUIRES(zck->comp.data_loc == zck->comp.data_idx->comp_length) /*@C02.comp_end_dchunk.requires_whole_chunk_consumed*/
-V_REQUIRES(g_hu_hash != &zck->check_chunk_hash || zck->check_chunk_hash.ctx == NULL || g_hu_total == zck->comp.data_idx->comp_length)
-V_REQUIRES(zck->comp.end_dchunk == verif_end_dchunk)
-V_ASSIGNS(zck->comp.data, zck->comp.data_size, zck->comp.dc_data, zck->comp.dc_data_size, zck->comp.dc_data_loc, zck->comp.data_loc, zck->comp.data_idx, zck->comp.data_idx->valid, zck->check_chunk_hash.type, zck->check_chunk_hash.ctx, zck->error_state, g_hu_total, g_hu_seen, g_hu_ptr, g_hu_final, g_hu_inits, g_fin_val, g_fin_total, g_fin_seen, g_fin_ptr)
+V_REQUIRES(zck->comp.data_loc == RD_CUR_F(zck, comp_length)) /*@C02.comp_end_dchunk.requires_whole_chunk_consumed*/
+V_REQUIRES(g_hu_hash != &zck->check_chunk_hash || zck->check_chunk_hash.ctx == NULL || g_hu_total == RD_CUR_F(zck, comp_length))
+V_REQUIRES(zck->comp.end_dchunk == verif_end_dchunk && DC_WF(&zck->comp) && DATA_WF(&zck->comp))
+/* a streaming codec has already moved every buffered stored byte to the decoded side (its decompress hook ran) */
+V_REQUIRES(zck->comp.type == ZCK_COMP_ZSTD || zck->comp.data_size == 0)
+V_ASSIGNS(zck->comp.data, zck->comp.data_size, zck->comp.dc_data, zck->comp.dc_data_size, zck->comp.dc_data_loc, zck->comp.data_loc, zck->comp.data_idx, zck->check_chunk_hash.type, zck->check_chunk_hash.ctx, zck->error_state, g_hu_total, g_hu_seen, g_hu_ptr, g_hu_final, g_hu_inits, g_fin_val, g_fin_total, g_fin_seen, g_fin_ptr; zck->comp.data_idx == g_n1 && g_n1 != NULL: g_n1->valid; zck->comp.data_idx == g_n2 && g_n2 != NULL: g_n2->valid; zck->comp.data_idx == g_n3 && g_n3 != NULL: g_n3->valid)
 V_FREES_CALLEE(zck->comp.dc_data, zck->comp.data, zck->check_chunk_hash.ctx)
 V_ENSURES(__CPROVER_return_value < 1 || g_hu_hash != &zck->check_chunk_hash || (g_hu_final == V_OLD(g_hu_final) + 1 && g_fin_total == V_OLD(g_hu_total) && g_fin_seen == V_OLD(g_hu_seen))) /*@C15,C02.comp_end_dchunk.accepted_only_after_the_chunk_hash_was_finalised_over_all_its_bytes*/
-V_ENSURES(__CPROVER_return_value < 1 || g_hu_hash != &zck->check_chunk_hash || V_OLD(zck->comp.data_idx)->comp_length == 0 || !(g_k1 < (size_t)V_OLD(zck->comp.data_idx)->digest_size) || g_fin_val == V_OLD(zck->comp.data_idx)->digest[g_k1]) /*@C15,C02.comp_end_dchunk.accepted_only_if_every_digest_byte_equal*/
+V_ENSURES(__CPROVER_return_value < 1 || g_hu_hash != &zck->check_chunk_hash || RD_F(V_OLD(zck->comp.data_idx), comp_length) == 0 || !(g_k1 < (size_t)RD_F(V_OLD(zck->comp.data_idx), digest_size)) || g_fin_val == RD_F(V_OLD(zck->comp.data_idx), digest)[g_k1]) /*@C15,C02.comp_end_dchunk.accepted_only_if_every_digest_byte_equal*/
 V_ENSURES(__CPROVER_return_value >= 1 || zck->error_state == 2 || ((V_OLD(zck->error_state) > 0 || zck->mode != ZCK_MODE_READ) && zck->error_state > 0)) /*@C15,C02.comp_end_dchunk.rejected_chunk_leaves_sticky_error*/
-V_ENSURES(__CPROVER_return_value < 1 || (zck->comp.data_idx == V_OLD(zck->comp.data_idx)->next && zck->comp.data_loc == 0 && zck->check_chunk_hash.ctx != NULL && zck->check_chunk_hash.type == &zck->chunk_hash_type)) /*@C02,C14.comp_end_dchunk.advances_to_next_chunk_with_fresh_hash*/
+V_ENSURES(__CPROVER_return_value < 1 || (zck->comp.data_idx == RD_NEXT_OF(V_OLD(zck->comp.data_idx)) && zck->comp.data_loc == 0 && zck->check_chunk_hash.ctx != NULL && zck->check_chunk_hash.type == &zck->chunk_hash_type)) /*@C02,C14.comp_end_dchunk.advances_to_next_chunk_with_fresh_hash*/
 V_ENSURES(__CPROVER_return_value < 1 || V_OLD(zck->error_state) == 0) /*@C12.comp_end_dchunk.never_succeeds_on_a_context_in_error*/
 V_ENSURES(zck->comp.dc_data_loc <= zck->comp.dc_data_size) /*@C03.comp_end_dchunk.dc_buffer_cursor_inside*/
 V_ENSURES(__CPROVER_return_value < 1 || g_hu_hash != &zck->check_chunk_hash || g_hu_total == 0) /*@C02.comp_end_dchunk.next_chunk_starts_with_empty_hash*/
